@@ -243,3 +243,15 @@ M("c06-next-is-self", "C06", "wiring", (R, '    lclcontext = context._locals({"n
 M("c06-parent-not-published", "C06", "wiring", (R, '    context._data["parent"] = lclcontext._data["local"] = ih.inherits', '    lclcontext._data["local"] = ih.inherits'))
 M("c06-attach-at-self", "C06", "wiring", (R, "    while ih.inherits is not None:\n        ih = ih.inherits\n    lclcontext", "    lclcontext"))
 M("c06-first-inherit", "C06", "wiring", (CG, "            self.write_inherit(inherit[-1])", "            self.write_inherit(inherit[0])"))
+
+# ---------------------------------------------------------------- C11
+M("c11-code-no-kwargs", "C11", "position-carried", (PT, "        self.code = ast.PythonCode(text, **self.exception_kwargs)\n\n    def declared_identifiers(self):\n        return self.code.declared_identifiers\n\n    def undeclared_identifiers(self):\n        return self.code.undeclared_identifiers\n\n    def __repr__(self):\n        return \"Code(", "        self.code = ast.PythonCode(text)\n\n    def declared_identifiers(self):\n        return self.code.declared_identifiers\n\n    def undeclared_identifiers(self):\n        return self.code.undeclared_identifiers\n\n    def __repr__(self):\n        return \"Code("))
+M("c11-identifiers-wrong-node", "C11", "position-carried", (CG, '                    "Named block \'%s\' not allowed inside of def \'%s\'"\n                    % (node.name, self.node.name),\n                    **node.exception_kwargs,', '                    "Named block \'%s\' not allowed inside of def \'%s\'"\n                    % (node.name, self.node.name),\n                    **self.node.exception_kwargs,'))
+M("c11-builtin-exception", "C11", "error-discipline", (LX, '                raise exceptions.SyntaxException(\n                    "Invalid control line: \'%s\'" % text,\n                    **self.exception_kwargs,\n                )', '                raise ValueError("Invalid control line: \'%s\'" % text)'))
+M("c11-elif-offset-zero", "C11", "offset-algebra", (A, '            code = "if False:pass\\n" + code + "pass"\n            lineno_offset = -1', '            code = "if False:pass\\n" + code + "pass"\n            lineno_offset = 0'))
+M("c11-strip-offset-dropped", "C11", "offset-algebra", (A, '            lineno_offset += code[: len(code) - len(stripped)].count("\\n")\n', ""))
+M("c11-adjust-off-by-one", "C11", "offset-algebra", (P, '"lineno": lineno + lineno_offset + exc_lineno - 1,', '"lineno": lineno + lineno_offset + exc_lineno,'))
+M("c11-scan-raise-at-end", "C11", "start-captured", (LX, '                    "lineno": startlineno,\n                    "pos": startcharpos,', '                    "lineno": self.matched_lineno,\n                    "pos": self.matched_charpos,'))
+M("c11-expr-node-at-end", "C11", "start-captured", (LX, "            escapes.strip(),\n            lineno=line,\n            pos=pos,", "            escapes.strip(),"))
+M("c11-string-path-no-filename", "C11", "same-on-all-paths", (T, "            code, module = _compile_text(self, text, filename)\n            self._code = code\n            self._source = text", "            code, module = _compile_text(self, text, None)\n            self._code = code\n            self._source = text"))
+M("c11-raise-no-position", "C11", "position-carried", (PT, '            raise exceptions.CompileException(\n                "Missing parenthesis in %def", **self.exception_kwargs\n            )', '            raise exceptions.CompileException(\n                "Missing parenthesis in %def", None, 0, 0, None\n            )'))
